@@ -123,7 +123,21 @@ def run(ctx):
         guarded(ctx, 'C20.W1', opr, e, lambda a: isinstance(strip(a), dict) and strip(a).get('k') == 'bin' and strip(a)['op'] == '<' and
                 const_value(strip(a)['l']) == 0 and mentions_var(strip(a)['r'], 'len'), False,
                 'the pipe is closed only when read() returned no data', construct='pipe:closed-before-EOF')
-    ctx.floor('C20.W1', 18)
+    # SubprocessSet::DoWork pairs running_[k] with fds[k] by position: while the poll results are consumed
+    # running_ keeps its order - the only mutation is `i = running_.erase(i)` at the cursor
+    dw = prog.fn('SubprocessSet::DoWork')
+    muts = [e for e in dw.events('call') if mentions_field(e.get('recv'), 'SubprocessSet::running_') and
+            lastname(e.get('name')) in ('erase', 'pop_back', 'push_back', 'insert', 'clear', 'swap', 'emplace_back', 'resize', 'assign')]
+    thru = [e for e in dw.events('asg') if isinstance(strip(e['l']), dict) and strip(e['l']).get('k') in ('call', 'un', 'deref', 'idx') and
+            any(x.get('k') == 'var' and dw.single_def(x['n']) is None and 'running_' in ' '.join(dstr(d.get('init')) for d in dw.events('decl') if d['n'] == x['n'])
+                for x in walk(e['l']))]
+    thru += [e for e in dw.events('call') if lastname(e.get('name')) == 'operator=' and isinstance(strip(e.get('recv')), dict) and
+             strip(e.get('recv')).get('k') == 'call' and strip(e.get('recv')).get('op') == '*']
+    okm = all(lastname(e.get('name')) == 'erase' for e in muts) and bool(muts) and not thru
+    ctx.check('C20.W1', okm, dw.name, 'DoWork:running-order-disturbed', dw.loc,
+              'running_ is only erased from at the cursor while poll results are matched by position (%s; writes through the cursor: %d)' % (
+                  sorted({lastname(e.get('name')) for e in muts}), len(thru)))
+    ctx.floor('C20.W1', 19)
 
     # ---- O1: failure header order ------------------------------------------------------------------
     R('C20.O1', 'O', 'for a failed command the FAILED line (outputs, exit code) and the full command '
